@@ -130,3 +130,19 @@ def f18_ipvfuture_brackets(rec, args):
     blob = " ".join(a for a in args if isinstance(a, str))
     m = re.search(r"\[[vV][0-9A-Fa-f]+\.[^\]]*:[^\]]*\]", blob)
     return bool(m)
+
+
+@predicate
+def f16_non_ascii_zone(rec, args):
+    """constructor input whose host is an IP literal followed by '%<zone>' with a non-ASCII character in the zone,
+    and the only complaint is that str(url) is not ASCII."""
+    obs = rec.get("observed") or {}
+    if not (isinstance(obs, dict) and obs.get("where") == "str"):
+        return False
+    s = obs.get("str") or ""
+    m = re.search(r"//(?:[^/@]*@)?(\[[0-9A-Fa-f:.]+%([^\]]*)\]|[0-9.]+%([^/:]*))", s)
+    if not m:
+        return False
+    zone = m.group(2) if m.group(2) is not None else m.group(3)
+    rest = s.replace(zone, "")
+    return (not zone.isascii()) and rest.isascii()
